@@ -50,4 +50,18 @@ def layoutRxV0 (tn fn : Nat) (rssi toa256 : Int) (bits pad : List Nat) : List Na
 def layoutRxV1 (tn fn : Nat) (rssi toa256 : Int) (nope mod tsc : Nat) (ci : Int) (bits : List Nat) : List Nat :=
   [hdrOctet 1 tn] ++ be32 fn ++ [(-rssi).toNat] ++ be16s toa256 ++ [mtsOctet nope mod tsc] ++ be16s ci ++ bits
 
+/-! ### what the hand-written message codec (data_msg.py) puts on the wire for version 1 -/
+
+/-- `Modulation` of the message codec: (coding, burst length) -/
+def msgModulations : List (Nat × Nat) := [(0, 148), (4, 444), (6, 148), (8, 592), (10, 740), (12, 296)]
+
+/-- a (coding, TSC set) pair that `RxMsg.validate` accepts: GMSK has 4 TSC sets, every other modulation 2 -/
+def msgModValid (coding set : Nat) : Bool :=
+  (msgModulations.map (·.1)).contains coding && (if coding = 0 then decide (set < 4) else decide (set < 2))
+
+/-- `RxMsg.gen_mts`: the MTS modulation nibble is `coding | tsc_set` -/
+def msgModCode (coding set : Nat) : Nat := coding ||| set
+
+def msgBurstLen (coding : Nat) : Option Nat := (msgModulations.find? (·.1 = coding)).map (·.2)
+
 end OsmoVerif.Spec.Trxd
